@@ -216,6 +216,32 @@ def check_properties_file(prop):
     return obligations, obligations, summary, None
 
 
+def coqchk_property(prop, timeout=3000):
+    """thorough tier: re-check Properties/<prop>.vo and everything it depends on with the independent
+    checker coqchk (on a scratch copy of the compiled tree) and return (ok, summary lines)."""
+    dst = os.path.join(BUILD, "coqchk_" + prop)
+    shutil.rmtree(dst, ignore_errors=True)
+    shutil.copytree(COQ, dst, ignore=shutil.ignore_patterns("*.glob", "*.aux", ".*.aux", "Makefile*"))
+    try:
+        r = run(["timeout", "-k", "10", str(timeout), "coqchk", "-silent", "-o", "-Q", "theories", "Whawty",
+                 "-Q", "Properties", "WhawtyProps", "WhawtyProps." + prop], cwd=dst, timeout=timeout + 60)
+    except subprocess.TimeoutExpired:
+        shutil.rmtree(dst, ignore_errors=True)
+        return False, ["coqchk timed out"]
+    shutil.rmtree(dst, ignore_errors=True)
+    out = r.stdout
+    lines = []
+    m = re.search(r'CONTEXT SUMMARY\s*=+\s*(.*)', out, re.S)
+    if m:
+        for l in m.group(1).split("\n"):
+            l = l.strip()
+            if l.startswith("*") or (l and lines and not l.startswith("*")):
+                lines.append(l)
+    ok = r.returncode == 0 and "Axioms: <none>" in out and "type-in-type: <none>" in out and \
+        "unsafe (co)fixpoints: <none>" in out and "positivity is assumed: <none>" in out
+    return ok, ["coqchk -silent -o WhawtyProps.%s: exit %d" % (prop, r.returncode)] + lines[:20]
+
+
 # ----------------------------------------------------------------------------
 # step 3: Go drivers through -overlay
 def run_go_driver(pkg_rel, harness_dir, prop, seed, tier, out_path, extra_env=None, timeout=1500, race=False):
